@@ -4,6 +4,7 @@
     Part 1 (termination without error) this gives completeness. *)
 From Sheens Require Export Proofs.MatchTotal.
 From Coq Require Import Lia.
+From Sheens Require Import Proofs.BoundMatch.
 
 (** * Counting occurrences *)
 Lemma count_occ_str_app : forall s a b,
@@ -666,7 +667,9 @@ Section Witness.
           -- apply smem_In in Em.
              assert (Hsc : is_scalar w = true).
              { apply (Hs s w); [cbn [pvars]; rewrite Es; left; reflexivity | left; exact Em | exact El]. }
-             apply scalar_self_match in H; [|exact Hsc | eapply sg_value_var_free; eauto]. subst r.
+             assert (Hwvf : var_free w = true) by (eapply sg_value_var_free; eauto).
+             rewrite (bound_match_var_free _ _ _ _ Hwvf) in H.
+             apply scalar_self_match in H; [|exact Hsc | exact Hwvf]. subst r.
              left. apply restr_ext. intros s'; cbn [In]; split; [tauto|]. intros [<-|Hi]; assumption.
           -- inversion H; subst. left. apply bset_restr; [exact Hsg_sorted | exact El | apply smem_false; exact Em].
       + destruct f; try discriminate. rewrite He in H. inversion H; subst. left; reflexivity.
